@@ -19,13 +19,33 @@ structure RawDtype where
   asNumpyName : Option String := none
   /-- the dtype itself when it is a `str` (duck arrays) -/
   strVal : Option String := none
-  /-- the part of `repr(obj.dtype)` after the last dot (PyTorch style) -/
-  reprTail : String := ""
+  /-- `repr(obj.dtype)` when the dtype is some other object (PyTorch / MLX style: `torch.float32`,
+      `mlx.core.float32`, or a bare `float32`) -/
+  reprFull : String := ""
   deriving Repr, DecidableEq
+
+/-- how the source cuts the name out of `repr(obj.dtype)` (read from the source by the translator) -/
+inductive ReprRule
+  | lastComponent    -- `*_, dtype = repr(obj.dtype).rsplit(".", 1)`: after the LAST dot, all of it without one
+  | afterFirstDot    -- `partition(".")`: after the FIRST dot, empty without one
+  | unknown
+  deriving Repr, DecidableEq
+
+def cutLastComponent (cs : List Char) : List Char :=
+  cs.foldl (fun acc c => if c == '.' then [] else acc ++ [c]) []
+
+def cutAfterFirstDot : List Char → List Char
+  | [] => []
+  | c :: cs => if c == '.' then cs else cutAfterFirstDot cs
+
+def ReprRule.cut : ReprRule → String → String
+  | .lastComponent, s => String.ofList (cutLastComponent s.toList)
+  | .afterFirstDot, s => String.ofList (cutAfterFirstDot s.toList)
+  | .unknown, _ => "?"
 
 /-- `npCanonical`: the source has the branch that prefers `dtype.name` for NumPy numeric dtypes
     (read from the source by the translator) -/
-def extractName (npCanonical : Bool) (r : RawDtype) : String :=
+def extractName (npCanonical : Bool) (rule : ReprRule) (r : RawDtype) : String :=
   match r.typeName with
   | some tn =>
     match r.structStr with
@@ -37,7 +57,7 @@ def extractName (npCanonical : Bool) (r : RawDtype) : String :=
     | none =>
       match r.strVal with
       | some s => s
-      | none => r.reprTail
+      | none => rule.cut r.reprFull
 
 /-- `AbstractDtype.__init_subclass__`: a single string becomes a one-element tuple -/
 inductive UserDtypes
